@@ -312,7 +312,7 @@ def correspondence(tier, seed):
         result['wall_s'] = time.time() - t0
         # keep only the newest few run directories
         runs = sorted(glob.glob(os.path.join(CACHE, 'runs', '*')), key=os.path.getmtime)
-        for old in runs[:-6]:
+        for old in runs[:-3]:
             if old != rundir: shutil.rmtree(old, ignore_errors=True)
         json.dump(result, open(resf, 'w'))
         result['cached'] = False
